@@ -1834,6 +1834,91 @@ def relative_import_calls(repo, run, rule):
         run.info(rule, ('awesomeyaml', 0, '<package>'), 'relative import_module calls', 'none in the package')
 
 
+def dump_table(repo, run, rule):
+    """yaml.dump evaluated (PyYAML's dump, open and the dumper class are stand-ins) over output in (None, an open stream, a file name) x
+    exclude_metadata in (None, a set): the node tree and the stream reach PyYAML; the dumper PyYAML is told to create is an
+    AwesomeyamlDumper built from PyYAML's own arguments, starting with an empty stack of inherited flags and the caller's set of
+    excluded metadata (an empty set when none is given); the text is returned only when no output was given; a file the function
+    opened itself is closed"""
+    fi = repo.func('yaml.dump')
+    bad = []
+    rows = 0
+    for out_kind in ('none', 'stream', 'filename'):
+        for excl in (None, {'x'}):
+            cap, made, log = [], [], []
+
+            def ydump(data, stream=None, Dumper=None, cap=cap, **k):
+                cap.append((data, stream, Dumper, k))
+                return 'TEXT'
+
+            def mk(*a, made=made, **k):
+                o = Obj('dumper%d' % len(made), 'AwesomeyamlDumper')
+                o.missing.add('metadata')
+                o.missing.add('exclude_metadata')
+                made.append((o, a, k))
+                return o
+            fobj = Obj('file', 'TextIO')
+
+            def _open(name, mode='r', log=log, fobj=fobj):
+                log.append(('open', name, mode))
+                return fobj
+
+            def stub(n, recv, a, k, log=log):
+                log.append((n, getattr(recv, 'name', recv)))
+                return None
+            f = FDE(repo, stubs={'close'}, stub=stub)
+            f.extcalls = {'yaml.dump': ydump, 'open': _open}
+            f.constructors = {'AwesomeyamlDumper': mk, 'ConfigNode': lambda x, **k: x}
+            tree = node_obj('tree', 'ConfigDict')
+            stream = Obj('stream', 'TextIO')
+            output = {'none': None, 'stream': stream, 'filename': 'out.yaml'}[out_kind]
+            what = 'dump(tree, output=%s, exclude_metadata=%s)' % ({'none': 'None', 'stream': '<stream>', 'filename': "'out.yaml'"}[out_kind], 'None' if excl is None else '{...}')
+            rows += 1
+
+            def go():
+                r_ = f.call(fi, tree, output=output, exclude_metadata=excl, sort_keys=True)
+                d_ = None
+                if not r_.raised and len(cap) == 1 and cap[0][2] is not None:
+                    d_ = f._apply(cap[0][2], ['STREAM'], {'width': 80}, None)
+                return r_, d_
+            try:
+                r, d = fde_guard(go)
+            except Raised as ex:
+                bad.append('%s: the dumper factory raises %s' % (what, ex.exc))
+                continue
+            if r.raised:
+                bad.append('%s raises %s' % (what, r.raised))
+                continue
+            if len(cap) != 1:
+                bad.append('%s: PyYAML\'s dump is called %d times' % (what, len(cap)))
+                continue
+            data, st, D, kw = cap[0]
+            want_stream = {'none': None, 'stream': stream, 'filename': fobj}[out_kind]
+            if data is not tree:
+                bad.append('%s: PyYAML receives %r, not the node tree' % (what, data))
+            elif st is not want_stream:
+                bad.append('%s: PyYAML writes to %r, expected %r' % (what, st, want_stream))
+            elif kw.get('sort_keys') is not True:
+                bad.append('%s: sort_keys does not reach PyYAML' % what)
+            elif not isinstance(d, Obj) or not made or d is not made[-1][0] or made[-1][1] != ('STREAM',) or made[-1][2] != {'width': 80}:
+                bad.append('%s: the dumper PyYAML creates is %r (constructed from %s), expected an AwesomeyamlDumper built from PyYAML\'s arguments' % (what, d, made[-1][1:] if made else 'nothing'))
+            elif d.f.get('metadata') != [] or 'metadata' in d.missing:
+                bad.append('%s: the dumper starts with the inherited-flags stack %r, expected []' % (what, d.f.get('metadata')))
+            elif 'exclude_metadata' in d.missing or d.f.get('exclude_metadata') != (excl or set()) or not isinstance(d.f.get('exclude_metadata'), (set, frozenset)):
+                bad.append('%s: the dumper\'s set of excluded metadata is %r, expected %r' % (what, d.f.get('exclude_metadata') if 'exclude_metadata' not in d.missing else '<unset>', excl or set()))
+            elif r.ret != ('TEXT' if out_kind == 'none' else None):
+                bad.append('%s returns %r' % (what, r.ret))
+            elif out_kind == 'filename' and (('open', 'out.yaml', 'w') not in log or ('close', 'file') not in log):
+                bad.append('%s: the file is not opened for writing and closed again (%s)' % (what, log))
+            elif out_kind == 'stream' and ('close', 'stream') in log:
+                bad.append('%s closes the caller\'s stream' % what)
+    run.table(rule, rows, 'yaml.dump over output kind x exclude_metadata')
+    if bad:
+        run.violation(rule, fi, 'dump entry table', bad[0] + (' [%d rows]' % len(bad) if len(bad) > 1 else ''), witness=bad[:4])
+    else:
+        run.ok(rule, fi, 'dump entry (%d rows)' % rows, 'tree / stream / options reach PyYAML; dumper: own class, empty flag stack, caller\'s exclusions; text only without output; own file closed')
+
+
 def tag_spec(repo, run, rule, tags):
     """the constructor registered for each of the given tags builds the node class the tag stands for, with the documented data
     handling (which argument receives the YAML value, whether scalars are parsed, whether a mapping is the data or the arguments) - and
